@@ -263,9 +263,15 @@ def cls_src(t, defs):
         if f.get('kw_only'):
             opts.append('kw_only=True')
         lk = f.get('load_keys') or []
+        va = f.get('v1_alias')      # v1 engine: how `load_keys` are declared — Alias('a', 'b') ('all'), Alias(load=(...)) ('load'), Meta.v1_field_to_alias ('meta')
         if path and not path['style'].endswith('_ann'):
             fn = (_DW + 'path_field') if path['style'] == 'path_field' else (_V1 + 'AliasPath')
             rhs = f'{fn}({", ".join([repr(path["keys"])] + opts)})'
+        elif va in ('all', 'load') and lk:
+            keys = ', '.join(repr(k) for k in lk) if va == 'all' else f'load={tuple(lk)!r}'
+            rhs = f'V1Alias({", ".join([keys] + opts)})'
+        elif va == 'meta' and lk:
+            rhs = (opts[0][len('default='):] if len(opts) == 1 and opts[0].startswith('default=') else f'{q("field")}({", ".join(opts)})') if opts else None
         elif lk or f.get('dump_skip'):
             keys = repr(lk[0]) if len(lk) == 1 else repr(tuple(lk)) if lk else repr(f['name'])
             extra = []
@@ -316,6 +322,7 @@ from uuid import UUID
 from dataclass_wizard import (JSONWizard, JSONPyWizard, json_field, json_key, KeyPath, path_field, skip_if_field, SkipIf, CatchAll,
                               EQ, NE, LT, LE, GT, GE, IS, IS_NOT, IS_TRUTHY, IS_FALSY, LoadMeta, DumpMeta, fromdict, asdict)
 from dataclass_wizard.bases_meta import BaseJSONWizardMeta
+from dataclass_wizard.v1 import Alias as V1Alias
 from dataclass_wizard.wizard_mixins import YAMLWizard, TOMLWizard, JSONFileWizard
 import builtins as _b, typing as _t, datetime as _dtm, decimal as _dec, pathlib as _pl, uuid as _uu, enum as _en, dataclasses as _dc
 import typing_extensions as _te, dataclass_wizard as _dw, dataclass_wizard.wizard_mixins as _wm, dataclass_wizard.bases_meta as _bm
